@@ -781,6 +781,40 @@ func fillBytes(b byte, n int) []byte {
 	return p
 }
 
+// chainMsg is a recursive message {1: chainMsg, 2: varint}: its Unmarshal reads keys and hands field 1 to DecodeNested.
+type chainMsg struct {
+	mode  csproto.DecoderMode
+	child *chainMsg
+	n     uint64
+}
+
+func (c *chainMsg) Unmarshal(p []byte) error {
+	d := csproto.NewDecoder(p)
+	d.SetMode(c.mode)
+	for d.More() {
+		tag, wt, err := d.DecodeTag()
+		if err != nil {
+			return err
+		}
+		switch {
+		case tag == 1 && wt == csproto.WireTypeLengthDelimited:
+			c.child = &chainMsg{mode: c.mode}
+			if err := d.DecodeNested(c.child); err != nil {
+				return err
+			}
+		case tag == 2 && wt == csproto.WireTypeVarint:
+			if c.n, err = d.DecodeUInt64(); err != nil {
+				return err
+			}
+		default:
+			if _, err := d.Skip(tag, wt); err != nil {
+				return err
+			}
+		}
+	}
+	return nil
+}
+
 // allocFamily: every length-consuming op against a declared length of every magnitude with only a
 // few bytes actually remaining; TotalAlloc delta per call must stay within a linear budget.
 func allocFamily(sh *ev.Shard, c *ctx) {
@@ -845,6 +879,48 @@ func allocFamily(sh *ev.Shard, c *ctx) {
 							sh.Fail(o.name+"/allocation-out-of-proportion", id, detail{Buf: fmt.Sprintf("%x", buf), Offset: 1, Mode: m.String(), Op: o.name, Msg: fmt.Sprintf("TotalAlloc delta %d > budget %d", delta, budget)})
 						}
 					}
+				}
+			}
+		}
+	}
+	// chain family: a message nested in itself D levels deep (each level: key, length, rest), decoded by a recursive
+	// Unmarshaler that - like generated code - calls DecodeNested for its field 1; valid chains and chains whose
+	// innermost level is damaged (truncated varint, over-long length, stray byte). What one DecodeNested call allocates,
+	// all levels included, stays within the linear budget: an error that is re-formatted at every level on its way out
+	// costs D^2.
+	for _, D := range []int{16, 256, 2048} {
+		for _, bottom := range [][]byte{nil, {0x10, 0x05}, {0x10, 0x80}, {0x0A, 0x7F}, {0x0F}} {
+			body := append([]byte{}, bottom...)
+			for lv := 0; lv < D; lv++ {
+				body = append(refwire.AppendVarint([]byte{0x0A}, uint64(len(body))), body...)
+			}
+			buf := body[:len(body):len(body)]
+			c.buf = buf
+			c.base = uintptr(unsafe.Pointer(unsafe.SliceData(buf)))
+			for _, m := range []csproto.DecoderMode{csproto.DecoderModeSafe, csproto.DecoderModeFast} {
+				id := fmt.Sprintf("alloc/chain depth=%d bottom=%x/%s", D, bottom, m)
+				sh.Cur("DecodeNested/chain-alloc", id)
+				var err error
+				var pan any
+				runtime.ReadMemStats(&ms0)
+				func() {
+					defer func() { pan = recover() }()
+					d := csproto.NewDecoder(buf)
+					d.SetMode(m)
+					d.Seek(1, io.SeekStart)
+					err = d.DecodeNested(&chainMsg{mode: m})
+				}()
+				runtime.ReadMemStats(&ms1)
+				calls++
+				delta := ms1.TotalAlloc - ms0.TotalAlloc
+				budget := uint64(64*len(buf) + 8192)
+				switch {
+				case pan != nil:
+					sh.Fail("DecodeNested(chain)/panic", id, detail{Buf: fmt.Sprintf("chain of %d levels, %d bytes", D, len(buf)), Offset: 1, Mode: m.String(), Op: "DecodeNested(chain)", Msg: fmt.Sprint(pan)})
+				case bottom == nil && err != nil:
+					sh.Fail("DecodeNested(chain)/error-on-well-formed", id, detail{Buf: fmt.Sprintf("chain of %d levels, %d bytes", D, len(buf)), Offset: 1, Mode: m.String(), Op: "DecodeNested(chain)", Msg: err.Error()[:min(len(err.Error()), 200)]})
+				case delta > budget:
+					sh.Fail("DecodeNested(chain)/allocation-out-of-proportion", id, detail{Buf: fmt.Sprintf("chain of %d levels, %d bytes", D, len(buf)), Offset: 1, Mode: m.String(), Op: "DecodeNested(chain)", Msg: fmt.Sprintf("TotalAlloc delta %d > budget %d", delta, budget)})
 				}
 			}
 		}
